@@ -6,10 +6,10 @@ CONSTANTS
   WithRefresh = TRUE
   FixSessionWait = TRUE
   FixRefreshWait = TRUE
-  FixProcQuit = FALSE
-  FixUpstreamQuitFirst = FALSE
+  FixProcQuit = TRUE
+  FixUpstreamQuitFirst = TRUE
   FixSignalBeforeWait = FALSE
-  ClientQCap = 4
+  ClientQCap = 2
   NReq = 3
   SessQCap = 1
   MaxRounds = 2
